@@ -16,6 +16,7 @@ import (
 	"bytes"
 	"encoding/json"
 	"fmt"
+	"io"
 	"os"
 	"sort"
 	"strconv"
@@ -83,12 +84,35 @@ func caseFromJSON(j map[string]interface{}) *Case {
 }
 
 // render runs the real ConsoleWriter reps times on the same input and configuration.
+type failingOut struct{ accept int }
+
+func (f failingOut) Write(p []byte) (int, error) {
+	if f.accept > len(p) {
+		f.accept = len(p)
+	}
+	return f.accept, io.ErrClosedPipe
+}
+
+// disturbPool performs Writes on unrelated ConsoleWriters whose Out fails; their results are
+// outside the property, what a later Write produces is not.
+func disturbPool(i int) {
+	for k := 0; k < 4; k++ {
+		w := zerolog.ConsoleWriter{Out: failingOut{accept: (i + k) % 3 * 5}, NoColor: true}
+		w.Write([]byte(`{"level":"warn","message":"verif-disturbance","secret":"verif-other-writer"}`))
+	}
+}
+
 func render(cs *Case, reps int) obs {
 	var ob obs
 	saved := zerolog.TimeFieldFormat
 	zerolog.TimeFieldFormat = cs.Opts.TimeFieldFormat
 	defer func() { zerolog.TimeFieldFormat = saved }()
 	for i := 0; i < reps; i++ {
+		if i > 0 {
+			// history: between two renderings another ConsoleWriter (sharing only the
+			// package's buffer pool) writes to a destination that fails or accepts a part
+			disturbPool(i)
+		}
 		var out bytes.Buffer
 		w := cs.Opts.writer(&out)
 		n, err := w.Write(cs.Event)
